@@ -475,6 +475,7 @@ func sortedKeys(m map[string]any) []string {
 var tolerantForms = map[string]bool{
 	"aud:string": true, "time:rfc3339": true, "time:rfc3339-fraction": true, "xbool:string-true": true, "xbool:string-false": true,
 	"locales:string-spaces": true, "locales:string-spaces-with-undefined": true, "locales:array": true, "locales:array-with-undefined": true,
+	"locales:string-spaces-with-unknown-subtag": true, "locales:array-with-unknown-subtag": true,
 	"time:number-float-spelling": true, "locale:string-tag-noncanonical-spelling": true,
 }
 
@@ -509,6 +510,11 @@ func formClass(k fkind, e expect) string {
 		kn = kindName[k]
 	}
 	switch {
+	case strings.Contains(e.form, "unknown-subtag-next-to-known") || strings.Contains(e.form, "with-unknown-subtag"):
+		// a well-formed language tag with a subtag unknown to the registry next to known ones: undefined locale / left out of the list
+		return "form:" + kn + ":unknown-subtag-next-to-known"
+	case strings.Contains(e.form, "rfc3339-out-of-range"):
+		return "form:" + kn + ":rfc3339-out-of-range"
 	case tolerantForms[kindName[k]+":"+e.form]:
 		return "form:" + kn + ":tolerant"
 	case e.class == cDoc:
